@@ -14,6 +14,7 @@ Fixpoint psrc_b (s : pstmt) : bool :=
   | PExpr _ r | PAssign _ _ r => src_r r
   | PPass _ | PBreak _ | PContinue _ => true
   | PIf _ t b o | PWhile _ t b o => src_e t && forallb psrc_b b && forallb psrc_b o
+  | PFor _ _ it b o => src_r it && forallb psrc_b b && forallb psrc_b o
   | PReturn _ None => true
   | PReturn _ (Some r) => src_r r
   | _ => false
@@ -27,6 +28,7 @@ Hypothesis HAssign : forall n xs v, P (PAssign n xs v).
 Hypothesis HPass : forall n, P (PPass n).
 Hypothesis HIf : forall n t b o, Forall P b -> Forall P o -> P (PIf n t b o).
 Hypothesis HWhile : forall n t b o, Forall P b -> Forall P o -> P (PWhile n t b o).
+Hypothesis HFor : forall n x it b o, Forall P b -> Forall P o -> P (PFor n x it b o).
 Hypothesis HBreak : forall n, P (PBreak n).
 Hypothesis HContinue : forall n, P (PContinue n).
 Hypothesis HReturn : forall n v, P (PReturn n v).
@@ -45,6 +47,7 @@ Fixpoint pstmt_ind' (s : pstmt) : P s :=
   | PPass n => HPass n
   | PIf n t b o => HIf n t b o (go b) (go o)
   | PWhile n t b o => HWhile n t b o (go b) (go o)
+  | PFor n x it b o => HFor n x it b o (go b) (go o)
   | PBreak n => HBreak n
   | PContinue n => HContinue n
   | PReturn n v => HReturn n v
@@ -155,6 +158,30 @@ Lemma pexec_PWhileG sc glob n g t' t b o r sv pre :
   X_s sc glob (PWhileG n g t' t b o) r sv pre =
   ploop sc glob (fun r pre => if pgon pre g then eval_e t' (look sc glob r) else eval_e t (look sc glob r)) b o fuel r sv pre.
 Proof. reflexivity. Qed.
+Definition pfloop (sc : scope) (glob : env) (x : N) (b o : list pstmt) :=
+  fix floop (k : nat) (i : Z) (r : env) (saved : val) (pre : list entry) {struct k} : pres :=
+    match k with
+    | O => X_l sc glob o r saved pre
+    | S k' =>
+        let a := X_l sc glob b (upd r x (VInt i)) saved pre in
+        match p_exc a with
+        | Some PBrk => {| p_exc := None; p_env := p_env a; p_saved := p_saved a; p_log := p_log a |}
+        | None | Some PCnt =>
+            let z := floop k' (i + 1)%Z (p_env a) (p_saved a) (pre ++ p_log a) in
+            {| p_exc := p_exc z; p_env := p_env z; p_saved := p_saved z; p_log := p_log a ++ p_log z |}
+        | Some _ => a
+        end
+    end.
+Lemma pexec_PFor sc glob n x it b o r sv pre :
+  X_s sc glob (PFor n x it b o) r sv pre =
+  let '(q, sv', l) := eval_r call (look sc glob r) (globs sc glob r) it sv pre in
+  match q with
+  | ROk (VRange lo hi) => let z := pfloop sc glob x b o (Z.to_nat (hi - lo)) lo r sv' (pre ++ l) in
+                          {| p_exc := p_exc z; p_env := p_env z; p_saved := p_saved z; p_log := l ++ p_log z |}
+  | ROk _ => {| p_exc := Some (PO (FX ETypeError)); p_env := r; p_saved := sv'; p_log := l |}
+  | RErr e => {| p_exc := Some (PO e); p_env := r; p_saved := sv'; p_log := l |}
+  end.
+Proof. reflexivity. Qed.
 Lemma pexec_l_cons sc glob x u r sv pre : X_l sc glob (x :: u) r sv pre = pseq (X_s sc glob x r sv pre) (X_l sc glob u) pre.
 Proof. reflexivity. Qed.
 Lemma pexec_PIf sc glob n t b o r sv pre :
@@ -235,6 +262,26 @@ Definition prloop (quiet : bool) (sc : scope) (glob : env) (n : N) (t : texpr) (
         end
     end.
 
+Definition ebf (n : N) : entry := (E_before_for_loop_body, n, Some (cval (SBool true))).
+Definition eaf (n : N) : entry := (E_after_for_loop_iter, n, Some VNone).
+Definition prfloop (quiet : bool) (sc : scope) (glob : env) (n x : N) (b o : list pstmt) :=
+  fix floop (k : nat) (i : Z) (r : env) (pre : list entry) {struct k} : prres :=
+    match k with
+    | O => R_l quiet false sc glob o r pre
+    | S k' =>
+        let loud_b := negb quiet && (negb ge || pgon pre (GFBody n)) in
+        let lb := if loud_b then [ebf n] else [] in
+        let a := R_l (negb loud_b) false sc glob b (upd r x (VInt i)) (pre ++ lb) in
+        let la := if loud_b then [eaf n] else [] in
+        match pr_exc a with
+        | Some PBrk => {| pr_exc := None; pr_env := pr_env a; pr_log := lb ++ pr_log a ++ la |}
+        | None | Some PCnt =>
+            let z := floop k' (i + 1)%Z (pr_env a) (pre ++ lb ++ pr_log a ++ la) in
+            {| pr_exc := pr_exc z; pr_env := pr_env z; pr_log := lb ++ pr_log a ++ la ++ pr_log z |}
+        | Some _ => {| pr_exc := pr_exc a; pr_env := pr_env a; pr_log := lb ++ pr_log a ++ la |}
+        end
+    end.
+
 Definition pbody_of (quiet : bool) (sc : scope) (glob : env) (s : pstmt) (r : env) (pre0 : list entry) : option pexc * env * list entry * val :=
   let say := fsay quiet in
   let n := pid s in
@@ -257,6 +304,14 @@ Definition pbody_of (quiet : bool) (sc : scope) (glob : env) (s : pstmt) (r : en
       | Err e => (Some (PO (FX e)), r, say l, VNone)
       end
   | PWhile _ t b o => let z := prloop quiet sc glob n t b o fuel r pre0 in (pr_exc z, pr_env z, pr_log z, VNone)
+  | PFor _ x it b o =>
+      let '(q, l) := ref_r callr quiet (look sc glob r) (globs sc glob r) it (pre0 ++ say [(E_before_for_iter, rid it, None)]) in
+      let lit := say [(E_before_for_iter, rid it, None)] ++ l ++ say (emitted_r E_after_for_iter (rid it) q) in
+      match q with
+      | ROk (VRange lo hi) => let z := prfloop quiet sc glob n x b o (Z.to_nat (hi - lo)) lo r (pre0 ++ lit) in (pr_exc z, pr_env z, lit ++ pr_log z, VNone)
+      | ROk _ => (Some (PO (FX ETypeError)), r, lit, VNone)
+      | RErr e => (Some (PO e), r, lit, VNone)
+      end
   | PReturn _ None => (Some (PO (FRet VNone)), r, [], VNone)
   | PReturn _ (Some v) =>
       let '(q, l) := ref_r callr quiet (look sc glob r) (globs sc glob r) v (pre0 ++ say [(E_before_return, rid v, None)]) in
@@ -335,6 +390,33 @@ Proof.
       unfold psim. cbn [p_exc p_env p_log pr_exc pr_env pr_log app]. repeat split; assumption.
 Qed.
 
+Lemma pquiet_floop g' sc glob n x b o :
+  Forall (pquiet_ok g') b -> Forall (pquiet_ok g') o -> forallb psrc_b b = true -> forallb psrc_b o = true ->
+  forall k i r sv p p', fl p = fl p' ->
+  psim (pfloop sc glob x (map (ppr g') b) (map (ppr g') o) k i r sv p) (prfloop true sc glob n x b o k i r p').
+Proof.
+  intros Fb Fo Hb Ho. induction k as [|k IH]; intros i r sv p p' Hp.
+  - cbn [pfloop prfloop]. apply (pquiet_list g' o Fo Ho). exact Hp.
+  - cbn [pfloop prfloop negb andb app].
+    assert (Hq : fl p = fl (p' ++ [])) by (rewrite app_nil_r; exact Hp).
+    destruct (pquiet_list g' b Fb Hb sc glob (upd r x (VInt i)) sv _ _ Hq) as (A1 & A2 & A3).
+    set (A := X_l sc glob (map (ppr g') b) (upd r x (VInt i)) sv p) in *.
+    set (B := R_l true false sc glob b (upd r x (VInt i)) (p' ++ [])) in *.
+    rewrite A1.
+    assert (Hcont : psim (let z := pfloop sc glob x (map (ppr g') b) (map (ppr g') o) k (i + 1)%Z (p_env A) (p_saved A) (p ++ p_log A) in
+                          {| p_exc := p_exc z; p_env := p_env z; p_saved := p_saved z; p_log := p_log A ++ p_log z |})
+                         (let z := prfloop true sc glob n x b o k (i + 1)%Z (pr_env B) (p' ++ [] ++ pr_log B ++ []) in
+                          {| pr_exc := pr_exc z; pr_env := pr_env z; pr_log := [] ++ pr_log B ++ [] ++ pr_log z |})).
+    { cbv zeta. assert (Hn : fl (p ++ p_log A) = fl (p' ++ [] ++ pr_log B ++ [])).
+      { cbn [app]. rewrite app_nil_r. apply fl_pre; assumption. }
+      destruct (IH (i + 1)%Z (p_env A) (p_saved A) _ _ Hn) as (J1 & J2 & J3). rewrite A2 in J1, J2, J3.
+      unfold psim. cbn [p_exc p_env p_log pr_exc pr_env pr_log]. rewrite A2. repeat split; try assumption.
+      rewrite !fl_app, !fl_nil, A3, J3. reflexivity. }
+    destruct (pr_exc B) as [[e| |]|] eqn:Ex; try exact Hcont;
+      unfold psim; cbn [p_exc p_env p_log pr_exc pr_env pr_log app]; repeat split; try assumption; try reflexivity;
+      rewrite ?app_nil_r; exact A3.
+Qed.
+
 Theorem pquiet_stmt g' : forall s, pquiet_ok g' s.
 Proof.
   induction s using pstmt_ind'; intros Hs sc glob r sv pa pb Hp; try discriminate Hs; cbn [psrc_b] in Hs; rewrite pref_unfold; cbn [fsay app pid pbody_of ppr].
@@ -367,6 +449,19 @@ Proof.
         try reflexivity. destruct (pgon pre0 (GTest n)); reflexivity. }
     destruct Q as (A1 & A2 & A3).
     destruct (pr_exc (prloop true sc glob n t b o fuel r pb)); repeat split; try assumption; rewrite ?app_nil_r; exact A3.
+  - (* for *)
+    apply andb_true_iff in Hs as [Hs Ho]. apply andb_true_iff in Hs as [Hi Hb].
+    assert (Hp0 : fl pa = fl ((pb ++ []) ++ [])) by (rewrite !app_nil_r; exact Hp).
+    rewrite pexec_PFor.
+    destruct (Rquiet it Hi (look sc glob r) (globs sc glob r) sv pa _ Hp0) as [A1 A2].
+    destruct (eval_r call _ _ it sv pa) as [[q sv'] l]. destruct (ref_r callr true _ _ it _) as [q' l']. cbn [fst snd] in A1, A2. subst q'.
+    destruct q as [v|e]; [|unfold psim; cbn [p_exc p_env p_log pr_exc pr_env pr_log]; rewrite ?app_nil_r; repeat split; exact A2].
+    destruct v; try (unfold psim; cbn [p_exc p_env p_log pr_exc pr_env pr_log emitted_r]; rewrite ?app_nil_r; repeat split; exact A2).
+    unfold psim. cbn [p_exc p_env p_log pr_exc pr_env pr_log emitted_r app]. rewrite ?app_nil_r.
+    assert (Hq : fl (pa ++ l) = fl (pb ++ l')) by (apply fl_pre; assumption).
+    destruct (pquiet_floop g' sc glob n x b o H H0 Hb Ho (Z.to_nat (b0 - a)) a r sv' _ _ Hq) as (F1 & F2 & F3).
+    destruct (pr_exc (prfloop true sc glob n x b o (Z.to_nat (b0 - a)) a r (pb ++ l'))) eqn:Ex;
+      repeat split; try assumption; rewrite ?app_nil_r, !fl_app, A2, F3; reflexivity.
   - repeat split.
   - repeat split.
   - (* return *)
@@ -385,6 +480,7 @@ Proof. induction 1 as [|x u Hx _ IH]; [reflexivity|]. cbn [map]. rewrite Hx, IH.
 Lemma ppr_false : forall s, ppr false s = s.
 Proof.
   induction s using pstmt_ind'; cbn [ppr]; try reflexivity.
+  - rewrite (ppr_false_list b H), (ppr_false_list o H0). reflexivity.
   - rewrite (ppr_false_list b H), (ppr_false_list o H0). reflexivity.
   - rewrite (ppr_false_list b H), (ppr_false_list o H0). reflexivity.
 Qed.
@@ -551,6 +647,108 @@ Proof.
 Qed.
 End OneLoop.
 
+
+(* ---- one for loop, given its sub-statements *)
+Section OneFor.
+Variables (n x : N) (b o : list pstmt).
+Hypothesis Hb : forallb psrc_b b = true.
+Hypothesis Ho : forallb psrc_b o = true.
+Hypothesis Fb : Forall ploud_ok b.
+Hypothesis Fo : Forall ploud_ok o.
+Variables (sc : scope) (glob : env).
+
+Definition F_b' := flat_map (pis c ge false) b.
+Definition F_o' := flat_map (pis c ge false) o.
+Definition F_after := if sub c E_after_for_loop_iter
+                      then [PTry F_b' [PEmit E_after_for_loop_iter n None (Some (if ge then Some (GFBody n) else None))]] else F_b'.
+Definition F_body := if ge then [PGuardIf (GFBody n) (if sub c E_before_for_loop_body then Some n else None) F_after (map (ppr ge) b)]
+                     else (if sub c E_before_for_loop_body then [PEmit E_before_for_loop_body n (Some (RExp (XConst 0 (SBool true)))) None] else []) ++ F_after.
+
+Lemma fafter_sim r sv q q' : fl q = fl q' ->
+  let A := X_l sc glob F_after r sv q in
+  let a := R_l false false sc glob b r q' in
+  p_exc A = pr_exc a /\ p_env A = pr_env a /\ fl (p_log A) = fl (pr_log a ++ [eaf n]).
+Proof.
+  intros Hq. cbv zeta. destruct (ploud_list b Fb (psrc_b_t b Hb) false sc glob r sv q q' Hq) as (E1 & E2 & E3). fold F_b' in E1, E2, E3.
+  unfold F_after. destruct (sub c E_after_for_loop_iter) eqn:Ea.
+  - rewrite pexec_l_single, pexec_PTry. cbv zeta. rewrite pexec_l_single. cbn [FragProg.pexec_s p_exc p_env p_saved p_log].
+    repeat split; try assumption. rewrite !fl_app, E3. reflexivity.
+  - repeat split; try assumption. rewrite fl_app, E3. unfold eaf. rewrite fl_single, Ea, app_nil_r. reflexivity.
+Qed.
+
+Lemma fiter_sim r sv p p' : fl p = fl p' ->
+  let LB := negb ge || pgon p' (GFBody n) in
+  let lb := if LB then [ebf n] else [] in
+  let A := X_l sc glob F_body r sv p in
+  let a := R_l (negb LB) false sc glob b r (p' ++ lb) in
+  let la := if LB then [eaf n] else [] in
+  p_exc A = pr_exc a /\ p_env A = pr_env a /\ fl (p_log A) = fl (lb ++ pr_log a ++ la).
+Proof.
+  intros Hp. cbv zeta. unfold F_body.
+  destruct ge_cases as [E|E].
+  - replace (if ge then [PGuardIf (GFBody n) (if sub c E_before_for_loop_body then Some n else None) F_after (map (ppr ge) b)]
+             else (if sub c E_before_for_loop_body then [PEmit E_before_for_loop_body n (Some (RExp (XConst 0 (SBool true)))) None] else []) ++ F_after)
+      with [PGuardIf (GFBody n) (if sub c E_before_for_loop_body then Some n else None) F_after (map (ppr ge) b)] by (rewrite E; reflexivity).
+    replace (negb ge) with false by (rewrite E; reflexivity). cbn [orb].
+    rewrite pexec_l_single, pexec_PGuardIf, (pgon_fl p p' _ Hp). cbn [before_event].
+    destruct (pgon p' (GFBody n)) eqn:G; cbn [negb].
+    + destruct (sub c E_before_for_loop_body) eqn:Bf.
+      * cbv zeta. match goal with |- context [X_l sc glob F_after r sv ?q] =>
+          assert (Hq : fl q = fl (p' ++ [ebf n])) by (apply fl_pre; [exact Hp|reflexivity]);
+          destruct (fafter_sim r sv q _ Hq) as (A1 & A2 & A3) end.
+        cbn [p_exc p_env p_log]. repeat split; try assumption.
+        cbn [app]. rewrite (fl_cons E_before_for_loop_body), A3. unfold ebf. rewrite (fl_cons E_before_for_loop_body). reflexivity.
+      * assert (Hq : fl p = fl (p' ++ [ebf n])) by (rewrite fl_app, Hp; unfold ebf; rewrite fl_single, Bf, app_nil_r; reflexivity).
+        destruct (fafter_sim r sv _ _ Hq) as (A1 & A2 & A3). unfold ebf, eaf in *. repeat split; try assumption.
+        rewrite A3. cbn [app]. rewrite (fl_cons E_before_for_loop_body), Bf. reflexivity.
+    + assert (Hq : fl p = fl (p' ++ [])) by (rewrite app_nil_r; exact Hp).
+      destruct (pquiet_list ge b (pquiet_all ge b) Hb sc glob r sv p _ Hq) as (Q1 & Q2 & Q3).
+      repeat split; try assumption. cbn [app]. rewrite app_nil_r. exact Q3.
+  - replace (if ge then [PGuardIf (GFBody n) (if sub c E_before_for_loop_body then Some n else None) F_after (map (ppr ge) b)]
+             else (if sub c E_before_for_loop_body then [PEmit E_before_for_loop_body n (Some (RExp (XConst 0 (SBool true)))) None] else []) ++ F_after)
+      with ((if sub c E_before_for_loop_body then [PEmit E_before_for_loop_body n (Some (RExp (XConst 0 (SBool true)))) None] else []) ++ F_after) by (rewrite E; reflexivity).
+    replace (negb ge) with true by (rewrite E; reflexivity). cbn [orb negb].
+    destruct (sub c E_before_for_loop_body) eqn:Bf.
+    + cbn [app]. rewrite pexec_l_cons. unfold pseq. cbn [FragProg.pexec_s FragFun.eval_r FragSem.eval_e rr_of p_exc p_env p_saved p_log app].
+      replace (event_eqb E_before_for_loop_body E_after_stmt) with false by reflexivity.
+      match goal with |- context [X_l sc glob F_after r ?s0 ?q] =>
+        assert (Hq : fl q = fl (p' ++ [ebf n])) by (apply fl_pre; [exact Hp|reflexivity]);
+        destruct (fafter_sim r s0 q _ Hq) as (A1 & A2 & A3) end.
+      repeat split; try assumption.
+      cbn [app]. rewrite (fl_cons E_before_for_loop_body), A3. unfold ebf. rewrite (fl_cons E_before_for_loop_body). reflexivity.
+    + cbn [app].
+      assert (Hq : fl p = fl (p' ++ [ebf n])) by (rewrite fl_app, Hp; unfold ebf; rewrite fl_single, Bf, app_nil_r; reflexivity).
+      destruct (fafter_sim r sv _ _ Hq) as (A1 & A2 & A3). unfold ebf, eaf in *. repeat split; try assumption.
+      rewrite A3. cbn [app]. rewrite (fl_cons E_before_for_loop_body), Bf. reflexivity.
+Qed.
+
+Lemma floop_sim : forall k i r sv p p', fl p = fl p' ->
+  psim (pfloop sc glob x F_body F_o' k i r sv p) (prfloop false sc glob n x b o k i r p').
+Proof.
+  induction k as [|k IH]; intros i r sv p p' Hp.
+  - cbn [pfloop prfloop]. apply (ploud_list o Fo (psrc_b_t o Ho)). exact Hp.
+  - cbn [pfloop prfloop]. cbn [negb andb].
+    pose proof (fiter_sim (upd r x (VInt i)) sv p p' Hp) as HI. cbv zeta in HI.
+    set (LB := negb ge || pgon p' (GFBody n)) in *.
+    set (lb := if LB then [ebf n] else []) in *.
+    set (la := if LB then [eaf n] else []) in *.
+    destruct HI as (I1 & I2 & I3).
+    set (A := X_l sc glob F_body (upd r x (VInt i)) sv p) in *.
+    set (a := R_l (negb LB) false sc glob b (upd r x (VInt i)) (p' ++ lb)) in *.
+    rewrite I1.
+    assert (Hcont : psim (let z := pfloop sc glob x F_body F_o' k (i + 1)%Z (p_env A) (p_saved A) (p ++ p_log A) in
+                          {| p_exc := p_exc z; p_env := p_env z; p_saved := p_saved z; p_log := p_log A ++ p_log z |})
+                         (let z := prfloop false sc glob n x b o k (i + 1)%Z (pr_env a) (p' ++ lb ++ pr_log a ++ la) in
+                          {| pr_exc := pr_exc z; pr_env := pr_env z; pr_log := lb ++ pr_log a ++ la ++ pr_log z |})).
+    { cbv zeta. assert (Hn : fl (p ++ p_log A) = fl (p' ++ lb ++ pr_log a ++ la)) by (apply fl_pre; assumption).
+      destruct (IH (i + 1)%Z (p_env A) (p_saved A) _ _ Hn) as (J1 & J2 & J3). rewrite I2 in J1, J2, J3.
+      unfold psim. cbn [p_exc p_env p_log pr_exc pr_env pr_log]. rewrite I2. repeat split; try assumption.
+      rewrite !fl_app, I3, J3, !fl_app, <- !app_assoc. reflexivity. }
+    destruct (pr_exc a) as [[e| |]|] eqn:Ex; try exact Hcont;
+      unfold psim; cbn [p_exc p_env p_log pr_exc pr_env pr_log]; repeat split; try assumption; try reflexivity.
+Qed.
+End OneFor.
+
 (* ---- statements *)
 Definition pmain_of (s : pstmt) : pstmt :=
   match s with
@@ -558,6 +756,7 @@ Definition pmain_of (s : pstmt) : pstmt :=
   | PAssign n xs r => PAssign n xs (wrapR c E_after_assign_rhs (rid r) (defR c E_before_assign_rhs (rid r) (ir c r)))
   | PIf n t b o => PIf n (wrap c E_after_if_test n (ie c t)) (flat_map (pis c ge false) b) (flat_map (pis c ge false) o)
   | PWhile n t b o => W_main n t b o
+  | PFor n x it b o => PFor n x (wrapR c E_after_for_iter (rid it) (defR c E_before_for_iter (rid it) (ir c it))) (F_body n b) (F_o' o)
   | PReturn n (Some r) => PReturn n (Some (wrapR c E_after_return (rid r) (defR c E_before_return (rid r) (ir c r))))
   | PDef n name ps body =>
       let b' := flat_map (pis c ge false) body in
@@ -588,8 +787,10 @@ Lemma pis_unfold m s : pis c ge m s =
   if m && sub c E_after_module_stmt then expanded ++ [PEmit E_after_module_stmt (pid s) (Some (RExp (XLoadSaved (pid s)))) None] else expanded.
 Proof.
   destruct s; try reflexivity.
-  unfold pown_of, pmvalue, pmain_of, W_main, W_body, W_after, W_t', W_b', W_o'. cbn [pis pid].
-  destruct ge_cases as [E|E]; rewrite E; reflexivity.
+  - unfold pown_of, pmvalue, pmain_of, W_main, W_body, W_after, W_t', W_b', W_o'. cbn [pis pid].
+    destruct ge_cases as [E|E]; rewrite E; reflexivity.
+  - unfold pown_of, pmvalue, pmain_of, F_body, F_after, F_b', F_o'. cbn [pis pid].
+    destruct ge_cases as [E|E]; rewrite E; reflexivity.
 Qed.
 
 Definition pmain_ok (s : pstmt) : Prop := forall sc glob r sv pm pr_, fl pm = fl (pr_ ++ [pbst s]) ->
@@ -661,6 +862,28 @@ Proof.
   repeat split; assumption.
 Qed.
 
+Lemma pmain_ok_for n x it b o : src_r it = true -> forallb psrc_b b = true -> forallb psrc_b o = true ->
+  Forall ploud_ok b -> Forall ploud_ok o -> pmain_ok (PFor n x it b o).
+Proof.
+  intros Hi Hb Ho Fb Fo sc glob r sv pm pr_ Hp. cbn [pmain_of pbody_of pid fsay]. rewrite pexec_PFor, EwrapR.
+  destruct (EdefR E_before_for_iter (rid it) (ir c it) (look sc glob r) (globs sc glob r) sv pm) as (p2 & Hp2 & ->).
+  assert (HP : fl p2 = fl ((pr_ ++ [pbst (PFor n x it b o)]) ++ [(E_before_for_iter, rid it, None)])).
+  { rewrite Hp2. apply fl_pre; [exact Hp|reflexivity]. }
+  destruct (Rloud it Hi (look sc glob r) (globs sc glob r) sv p2 _ HP) as [A1 A2].
+  destruct (eval_r call _ _ (ir c it) sv p2) as [[q sv'] l]. destruct (ref_r callr false _ _ it _) as [q' l']. cbn [fst snd] in A1, A2. subst q'.
+  destruct q as [v|e]; [|cbn [p_exc p_env p_log emitted_r]; repeat split; rewrite !fl_app, A2; fin].
+  destruct v; try (cbn [p_exc p_env p_log emitted_r]; repeat split; rewrite !fl_app, A2; fin).
+  cbv zeta.
+  remember (((if sub c E_before_for_iter then [(E_before_for_iter, rid it, None)] else []) ++ l) ++
+            (if sub c E_after_for_iter then emitted_r E_after_for_iter (rid it) (ROk (VRange a b0)) else [])) as LI eqn:ELI.
+  remember ([(E_before_for_iter, rid it, None)] ++ l' ++ emitted_r E_after_for_iter (rid it) (ROk (VRange a b0))) as lit eqn:Elit.
+  assert (H1 : fl LI = fl lit) by (subst LI lit; rewrite !fl_app, A2; fin).
+  assert (Hq : fl (pm ++ LI) = fl ((pr_ ++ [pbst (PFor n x it b o)]) ++ lit)) by (apply fl_pre; assumption).
+  destruct (floop_sim n x b o Hb Ho Fb Fo sc glob (Z.to_nat (b0 - a)) a r sv' _ _ Hq) as (E1 & E2 & E3).
+  subst LI lit. cbn [p_exc p_env p_log]. split; [exact E1|split; [exact E2|]].
+  apply fl_pre; [exact H1|exact E3].
+Qed.
+
 Lemma pexec_PEmit_some e n v g sc glob r sv pre : (forall k, v <> RExp (XLoadSaved k)) ->
   X_s sc glob (PEmit e n (Some v) g) r sv pre =
   let '(q, sv', l) := eval_r call (look sc glob r) (globs sc glob r) v sv pre in
@@ -675,10 +898,11 @@ Proof. unfold pwants. intros H. apply orb_false_iff in H. exact (proj1 H). Qed.
 
 Lemma pbody_nonexpr_value sc glob s r pr_ : psrc_t s = true -> p_is_expr s = false -> snd (pbody_of false sc glob s r pr_) = VNone.
 Proof.
-  intros Hs He. destruct s; try discriminate Hs; try discriminate He; cbn [pbody_of]; try reflexivity.
-  - destruct (ref_r callr false _ _ r0 _); reflexivity.
+  intros Hs He. destruct s as [k rh|k xs rh|k|k t b o|k t b o|k x it b o|k|k|k ro|k name ps body| | | | | |]; try discriminate Hs; try discriminate He; cbn [pbody_of]; try reflexivity.
+  - destruct (ref_r callr false _ _ rh _); reflexivity.
   - destruct (ref_e t (look sc glob r)) as [[vt|e] l]; reflexivity.
-  - destruct r0 as [v|]; [destruct (ref_r callr false _ _ v _)|]; reflexivity.
+  - destruct (ref_r callr false _ _ it _) as [[v|e] l]; [destruct v|]; reflexivity.
+  - destruct ro as [v|]; [destruct (ref_r callr false _ _ v _)|]; reflexivity.
 Qed.
 
 Definition pown_concl (s : pstmt) (m : bool) (sc : scope) (glob r : env) (pr_ : list entry) (O : pres) : Prop :=
@@ -711,7 +935,7 @@ Lemma pown_ok s m : psrc_t s = true -> pmain_ok s -> forall sc glob r sv pm pr_,
   pown_concl s m sc glob r pr_ (X_l sc glob (pown_of m s) r sv pm).
 Proof.
   intros Hs HM sc glob r sv pm pr_ Hp.
-  destruct s as [n v|n xs v|n|n t b o|n t b o|n|n|n v|n name ps body| | | | | |]; try discriminate Hs.
+  destruct s as [n v|n xs v|n|n t b o|n t b o|n x it b o|n|n|n v|n name ps body| | | | | |]; try discriminate Hs.
   - (* expression statement *)
     destruct m; [|apply pown_generic; try assumption; reflexivity].
     unfold pown_concl, pown_of, pmain_and_after. cbn [psrc_t psrc_b] in Hs.
@@ -727,6 +951,7 @@ Proof.
       destruct (pbody_of false sc glob (PExpr n v) r (pr_ ++ [pbst (PExpr n v)])) as [[[x r'] l] v'] eqn:Eb. destruct HM as (A1 & A2 & A3).
       rewrite pexec_l_single. repeat split; try assumption; [|intros H; discriminate H].
       rewrite fl_app, A3. destruct x; [rewrite fl_nil|rewrite fl_single, Wa]; rewrite app_nil_r; reflexivity.
+  - apply pown_generic; try assumption; reflexivity.
   - apply pown_generic; try assumption; reflexivity.
   - apply pown_generic; try assumption; reflexivity.
   - apply pown_generic; try assumption; reflexivity.
@@ -794,6 +1019,8 @@ Proof.
     apply passemble; [exact Hs'|apply pmain_ok_if; assumption|exact Hs'].
   - pose proof Hs as Hs'. apply andb_true_iff in Hs as [Hs Ho]. apply andb_true_iff in Hs as [Ht Hb].
     apply passemble; [exact Hs'|apply pmain_ok_while; assumption|exact Hs'].
+  - pose proof Hs as Hs'. apply andb_true_iff in Hs as [Hs Ho]. apply andb_true_iff in Hs as [Hi Hb].
+    apply passemble; [exact Hs'|apply pmain_ok_for; assumption|exact Hs'].
   - apply passemble; [reflexivity|apply pmain_ok_break|reflexivity].
   - apply passemble; [reflexivity|apply pmain_ok_continue|reflexivity].
   - apply passemble; [exact Hs|apply pmain_ok_return; destruct v; [exact Hs|reflexivity]|exact Hs].
@@ -911,8 +1138,8 @@ Lemma pdefs_pis s n : psrc_t s = true ->
   pdefs_of (pis c ge true s) n = match pfind_def n s with Some (ps, body) => Some (ps, instr_body n body) | None => None end.
 Proof.
   intros Hs. rewrite pis_unfold. cbv zeta. unfold pown_of, pthunk_branch, pmain_and_after.
-  destruct s as [k v|k xs v|k|k t b o|k t b o|k|k|k v|k name ps body| | | | | |]; try discriminate Hs; cbn [p_is_expr andb pid].
-  1-7: try (unfold pmain_of, W_main; destruct ge_cases as [E|E]; rewrite E); destruct (sub c E_before_stmt), (pwants true), (sub c E_after_module_stmt); reflexivity.
+  destruct s as [k v|k xs v|k|k t b o|k t b o|k x it b o|k|k|k v|k name ps body| | | | | |]; try discriminate Hs; cbn [p_is_expr andb pid].
+  1-8: try (unfold pmain_of, W_main; destruct ge_cases as [E|E]; rewrite E); destruct (sub c E_before_stmt), (pwants true), (sub c E_after_module_stmt); reflexivity.
   - destruct v; destruct (sub c E_before_stmt), (sub c E_after_module_stmt); reflexivity.
   - rewrite pmain_of_def.
     destruct (sub c E_before_stmt), (pwants true), (sub c E_after_module_stmt); cbn [app pdefs_of pfind_def];
@@ -1030,6 +1257,31 @@ Definition ploop0 (sc : scope) (glob : env) (t : texpr) (b o : list pstmt) :=
 Lemma pexec_PWhile0 sc glob n t b o r sv pre : X_s sc glob (PWhile n t b o) r sv pre = ploop0 sc glob t b o fuel r sv pre.
 Proof. reflexivity. Qed.
 
+Definition pfloop0 (sc : scope) (glob : env) (x : N) (b o : list pstmt) :=
+  fix floop (k : nat) (i : Z) (r : env) (saved : val) (pre : list entry) {struct k} : pres :=
+    match k with
+    | O => X_l sc glob o r saved pre
+    | S k' =>
+        let a := X_l sc glob b (upd r x (VInt i)) saved pre in
+        match p_exc a with
+        | Some PBrk => {| p_exc := None; p_env := p_env a; p_saved := p_saved a; p_log := p_log a |}
+        | None | Some PCnt =>
+            let z := floop k' (i + 1)%Z (p_env a) (p_saved a) (pre ++ p_log a) in
+            {| p_exc := p_exc z; p_env := p_env z; p_saved := p_saved z; p_log := p_log a ++ p_log z |}
+        | Some _ => a
+        end
+    end.
+Lemma pexec_PFor0 sc glob n x it b o r sv pre :
+  X_s sc glob (PFor n x it b o) r sv pre =
+  let '(q, sv', l) := eval_r call (look sc glob r) (globs sc glob r) it sv pre in
+  match q with
+  | ROk (VRange lo hi) => let z := pfloop0 sc glob x b o (Z.to_nat (hi - lo)) lo r sv' (pre ++ l) in
+                          {| p_exc := p_exc z; p_env := p_env z; p_saved := p_saved z; p_log := l ++ p_log z |}
+  | ROk _ => {| p_exc := Some (PO (FX ETypeError)); p_env := r; p_saved := sv'; p_log := l |}
+  | RErr e => {| p_exc := Some (PO e); p_env := r; p_saved := sv'; p_log := l |}
+  end.
+Proof. reflexivity. Qed.
+
 Definition pres_eq (a : pres) (b : prres) : Prop := p_exc a = pr_exc b /\ p_env a = pr_env b.
 Definition pplain_ok (s : pstmt) : Prop := psrc_t s = true -> forall q m sc glob r sv p p', pres_eq (X_s sc glob s r sv p) (R_s q m sc glob s r p').
 
@@ -1066,6 +1318,22 @@ Proof.
       split; cbn [p_exc p_env pr_exc pr_env]; assumption.
 Qed.
 
+Lemma pplain_floop q sc glob n x b o : Forall pplain_ok b -> Forall pplain_ok o ->
+  forallb psrc_b b = true -> forallb psrc_b o = true ->
+  forall k i r sv p p', pres_eq (pfloop0 sc glob x b o k i r sv p) (prfloop callr q sc glob n x b o k i r p').
+Proof.
+  intros Fb Fo Hb Ho. induction k as [|k IH]; intros i r sv p p'.
+  - cbn [pfloop0 prfloop]. apply (pplain_list o Fo (psrc_b_t o Ho)).
+  - cbn [pfloop0 prfloop].
+    match goal with |- context [R_l ?Q false sc glob b ?R ?P] =>
+      destruct (pplain_list b Fb (psrc_b_t b Hb) Q false sc glob R sv p P) as (A1 & A2);
+      set (A := X_l sc glob b R sv p) in *; set (B := R_l Q false sc glob b R P) in * end.
+    rewrite A1.
+    destruct (pr_exc B) as [[e| |]|] eqn:Ex; try (split; cbn [p_exc p_env pr_exc pr_env]; [first [exact A1|reflexivity]|exact A2]);
+      (match goal with |- context [prfloop callr q sc glob n x b o k (i + 1)%Z (pr_env B) ?P] => destruct (IH (i + 1)%Z (p_env A) (p_saved A) (p ++ p_log A) P) as (J1 & J2) end;
+       rewrite A2 in J1, J2; split; cbn [p_exc p_env pr_exc pr_env]; rewrite ?A2; assumption).
+Qed.
+
 Theorem pplain_stmt : forall s, pplain_ok s.
 Proof.
   induction s using pstmt_ind'; intros Hs q m sc glob r sv pa pb; try discriminate Hs; cbn [psrc_t psrc_b] in Hs; rewrite pref_unfold; cbn [pid pbody_of].
@@ -1085,6 +1353,15 @@ Proof.
   - apply andb_true_iff in Hs as [Hs Ho]. apply andb_true_iff in Hs as [Ht Hb].
     rewrite pexec_PWhile0.
     match goal with |- context [prloop callr q sc glob n t b o fuel r ?P] => destruct (pplain_loop q sc glob n t b o Ht H H0 Hb Ho fuel r sv pa P) as (B1 & B2) end.
+    split; cbn [p_exc p_env pr_exc pr_env]; assumption.
+  - (* for *)
+    apply andb_true_iff in Hs as [Hs Ho]. apply andb_true_iff in Hs as [Hi Hb].
+    rewrite pexec_PFor0.
+    pose proof (Rplain it Hi q (look sc glob r) (globs sc glob r) sv pa
+                  ((pb ++ fsay q [(E_before_stmt, n, Some VNone)]) ++ fsay q [(E_before_for_iter, rid it, None)])) as A1.
+    destruct (eval_r call _ _ it sv pa) as [[v sv'] l]. destruct (ref_r callr q _ _ it _) as [v' l']. cbn [fst snd] in A1. subst v'.
+    destruct v as [v|e]; [|split; reflexivity]. destruct v; try (split; reflexivity).
+    match goal with |- context [prfloop callr q sc glob n x b o ?K ?I r ?P] => destruct (pplain_floop q sc glob n x b o H H0 Hb Ho K I r sv' (pa ++ l) P) as (B1 & B2) end.
     split; cbn [p_exc p_env pr_exc pr_env]; assumption.
   - split; reflexivity.
   - split; reflexivity.
@@ -1140,6 +1417,8 @@ Proof. reflexivity. Qed.
 
 Lemma passigned_PWhile n t b o : passigned (PWhile n t b o) = flat_map passigned b ++ flat_map passigned o.
 Proof. reflexivity. Qed.
+Lemma passigned_PFor n x it b o : passigned (PFor n x it b o) = x :: flat_map passigned b ++ flat_map passigned o.
+Proof. reflexivity. Qed.
 Lemma passigned_ppr_list g' (u : list pstmt) : Forall (fun s => passigned (ppr g' s) = passigned s) u -> flat_map passigned (map (ppr g') u) = flat_map passigned u.
 Proof. induction 1 as [|x u Hx _ IH]; [reflexivity|]. cbn [map flat_map]. rewrite Hx, IH. reflexivity. Qed.
 Lemma passigned_ppr g' : forall s, passigned (ppr g' s) = passigned s.
@@ -1149,6 +1428,7 @@ Proof.
   - destruct g'; [change (passigned (PWhileG n (GTest n) t t (map (ppr true) b) (map (ppr true) o)))
                     with (flat_map passigned (map (ppr true) b) ++ flat_map passigned (map (ppr true) o))|];
       rewrite ?passigned_PWhile, (passigned_ppr_list _ b H), (passigned_ppr_list _ o H0); reflexivity.
+  - rewrite !passigned_PFor, (passigned_ppr_list g' b H), (passigned_ppr_list g' o H0). reflexivity.
 Qed.
 Lemma passigned_ppr_map g' u : flat_map passigned (map (ppr g') u) = flat_map passigned u.
 Proof. apply passigned_ppr_list. apply Forall_forall. intros s _. apply passigned_ppr. Qed.
@@ -1202,6 +1482,28 @@ Proof.
     unfold W_main. intros Hx.
     assert (Hx' : In x (flat_map passigned (W_body n b) ++ flat_map passigned (W_o' o))) by (destruct ge; exact Hx).
     apply in_app_or in Hx' as [Hx'|Hx']; apply in_or_app; [left; exact (HB Hx')|right; exact (asg_list o H0 (psrc_b_t o Ho) false x Hx')].
+  - (* for: as for while, plus the target *)
+    apply andb_true_iff in Hs as [Hs Ho]. apply andb_true_iff in Hs as [Hi Hb]. intros y. rewrite !passigned_PFor.
+    assert (HA : In y (flat_map passigned (F_after n b)) -> In y (flat_map passigned b)).
+    { unfold F_after, F_b'. destruct (sub c E_after_for_loop_iter).
+      - cbn [flat_map]. rewrite app_nil_r.
+        change (passigned (PTry (flat_map (pis c ge false) b) [PEmit E_after_for_loop_iter n None (Some (if ge then Some (GFBody n) else None))]))
+          with (flat_map passigned (flat_map (pis c ge false) b) ++ flat_map passigned [PEmit E_after_for_loop_iter n None (Some (if ge then Some (GFBody n) else None))]).
+        cbn [flat_map passigned app]. rewrite app_nil_r. exact (asg_list b H (psrc_b_t b Hb) false y).
+      - exact (asg_list b H (psrc_b_t b Hb) false y). }
+    assert (HB : In y (flat_map passigned (F_body n b)) -> In y (flat_map passigned b)).
+    { unfold F_body.
+      set (IG := [PGuardIf (GFBody n) (if sub c E_before_for_loop_body then Some n else None) (F_after n b) (map (ppr ge) b)]).
+      set (IN := (if sub c E_before_for_loop_body then [PEmit E_before_for_loop_body n (Some (RExp (XConst 0 (SBool true)))) None] else []) ++ F_after n b).
+      destruct ge_cases as [E|E].
+      - replace (if ge then IG else IN) with IG by (rewrite E; reflexivity). subst IG IN. cbn [flat_map]. rewrite app_nil_r.
+        change (passigned (PGuardIf (GFBody n) (if sub c E_before_for_loop_body then Some n else None) (F_after n b) (map (ppr ge) b)))
+          with (flat_map passigned (F_after n b) ++ flat_map passigned (map (ppr ge) b)).
+        rewrite passigned_ppr_map. intros Hx. apply in_app_or in Hx as [Hx|Hx]; [exact (HA Hx)|exact Hx].
+      - replace (if ge then IG else IN) with IN by (rewrite E; reflexivity). subst IG IN. rewrite flat_map_app. intros Hx. apply in_app_or in Hx as [Hx|Hx]; [|exact (HA Hx)].
+        destruct (sub c E_before_for_loop_body); destruct Hx. }
+    intros [Hx|Hx]; [left; exact Hx|right].
+    apply in_app_or in Hx as [Hx|Hx]; apply in_or_app; [left; exact (HB Hx)|right; exact (asg_list o H0 (psrc_b_t o Ho) false y Hx)].
   - destruct v; intros x Hx; exact Hx.
 Qed.
 
@@ -1240,6 +1542,8 @@ Notation B1 := (pbody_of binop cmpop unop truth cval is_and c1 P fuel ge).
 Notation B2 := (pbody_of binop cmpop unop truth cval is_and c2 P fuel ge).
 Notation W1 := (prloop binop cmpop unop truth cval is_and c1 P fuel ge).
 Notation W2 := (prloop binop cmpop unop truth cval is_and c2 P fuel ge).
+Notation F1 := (prfloop binop cmpop unop truth cval is_and c1 P fuel ge).
+Notation F2 := (prfloop binop cmpop unop truth cval is_and c2 P fuel ge).
 
 Section W.
 Variables callr1 callr2 : callR.
@@ -1265,6 +1569,15 @@ Proof.
   - rewrite (indep_list o Fo). reflexivity.
 Qed.
 
+Lemma indep_floop n x b o : Forall indep_ok b -> Forall indep_ok o -> forall q sc glob k i r pre,
+  F1 callr1 q sc glob n x b o k i r pre = F2 callr2 q sc glob n x b o k i r pre.
+Proof.
+  intros Fb Fo q sc glob. induction k as [|k IH]; intros i r pre.
+  - cbn [prfloop]. apply (indep_list o Fo).
+  - cbn [prfloop]. unfold FragProg.pgon. rewrite (indep_list b Fb).
+    destruct (pr_exc (L2 callr2 _ false sc glob b _ _)) as [[x0| |]|]; rewrite ?IH; reflexivity.
+Qed.
+
 Theorem indep_stmt : forall s, indep_ok s.
 Proof.
   induction s using pstmt_ind'; intros q m sc glob r pre;
@@ -1275,6 +1588,9 @@ Proof.
     destruct (truth vt); [rewrite (indep_list b H)|rewrite (indep_list o H0)]; reflexivity.
   - (* while *)
     rewrite (indep_loop n t b o H H0). reflexivity.
+  - (* for *)
+    destruct (ref_r binop cmpop unop truth cval is_and callr2 q _ _ it _) as [[v|e] l]; [|reflexivity].
+    destruct v; try reflexivity. rewrite (indep_floop n x b o H H0). reflexivity.
   - (* return *)
     destruct v as [v|]; [|reflexivity]. rewrite (ref_r_ext binop cmpop unop truth cval is_and callr1 callr2 Hc). reflexivity.
 Qed.
